@@ -14,6 +14,15 @@ def resolve(e, fi, depth=0):
     Names bound more than once, parameters and loop variables are returned as they are."""
     while isinstance(e, ast.Name) and depth < 8:
         defs = local_defs(fi, e.id)
+        if len(defs) == 2:
+            from .sqlmodel import two_armed
+
+            ie = two_armed(defs)
+            if ie is None:
+                break
+            e = ie
+            depth += 1
+            break
         if len(defs) != 1:
             break
         d = defs[0]
